@@ -445,7 +445,7 @@ pub fn eval_history(
                         // the violation (the next invocation will re-run an unchanged target)
                         if ok && success_logged && save_failed && model::has_inputs(sc, t) && matches!(which, Some(Which::Complete) | Some(Which::Both)) && filter(sc, t) {
                             let (i, o) = states(sc, &case, t);
-                            let injected = inv.plan.faults.iter().any(|f| f.site.starts_with("fs."));
+                            let injected = inv.plan.faults.iter().any(|f| f.site.starts_with("fs.") || (f.site.starts_with("sys.") && !matches!(f.kind.as_str(), "short" | "eintr")));
                             if !injected && !i.cmd_failed && !o.cmd_failed && r.abnormal().is_none() {
                                 let w = r.logs().find(|e| e.rest.starts_with(&format!("WARN {} - Failed to", disp))).map(|e| e.rest.clone()).unwrap_or_default();
                                 return viol(
@@ -589,6 +589,10 @@ pub struct HistOpts {
     pub fail_pct: usize,
     pub corrupt_pct: usize,
     pub io_fault_pct: usize,
+    /// share of invocations with one fault at a system call of zinoma's own blocking-pool
+    /// closures (`sys.write`, `sys.open-for-write`: where records are stored); `true` = only the
+    /// kinds that are no errors (a short write, EINTR), after which everything must be as usual
+    pub sys_fault: (usize, bool),
 }
 
 pub fn gen_history(rng: &mut Rng, o: &HistOpts) -> Scenario {
@@ -634,6 +638,21 @@ pub fn gen_history(rng: &mut Rng, o: &HistOpts) -> Scenario {
             let site = *rng.pick(&["fs.metadata", "fs.metadata", "fs.open", "fs.file-read", "fs.remove_file", "fs.create_dir"]);
             let kind = if site == "fs.file-read" && rng.chance(50) { "short" } else { "eio" };
             inv.plan.faults.push(Fault { site: site.into(), occurrence: rng.range(1, 12) as u32, kind: kind.into() });
+        }
+        if o.sys_fault.0 > 0 {
+            // drawn from a generator of its own (seeded by this invocation's hash seed) so that
+            // the histories generated for a given VERIF_SEED stay what they were
+            let mut r2 = Rng::new(inv.hash_seed.wrapping_mul(0x9E37_79B9_7F4A_7C15) ^ 0x5157);
+            if r2.chance(o.sys_fault.0) {
+                let benign = o.sys_fault.1;
+                let (site, kinds): (&str, &[&str]) = if r2.chance(75) {
+                    ("sys.write", if benign { &["short", "eintr", "short"] } else { &["short", "eintr", "enospc", "eio", "enospc"] })
+                } else {
+                    ("sys.open-for-write", if benign { &["eintr"] } else { &["eintr", "eacces", "enospc"] })
+                };
+                let occ = if site == "sys.write" { r2.range(1, 45) } else { r2.range(1, 4) } as u32;
+                inv.plan.faults.push(Fault { site: site.into(), occurrence: occ, kind: (*r2.pick(kinds)).into() });
+            }
         }
         sc.steps.push(Step::Invoke(inv));
         if k + 1 < ninv {
@@ -726,7 +745,7 @@ impl Property for C02 {
         vec!["mtimes of workload and script writes come from the simulator's logical clock (one tick per write)", "race-free layouts: a file is written by at most one target"]
     }
     fn generate(&self, rng: &mut Rng, _case: u64) -> Scenario {
-        gen_history(rng, &HistOpts { io: IoOpts { own_output_inside_input_pct: 12, cmd_output_pct: 30, multi_project_pct: 55, cmd_pct: 35, ..IoOpts::default() }, max_invocations: 5, edit_pct: 85, touch_only: false, vary_entry: false, clean_pct: 5, fail_pct: 8, corrupt_pct: 8, io_fault_pct: 12 })
+        gen_history(rng, &HistOpts { io: IoOpts { own_output_inside_input_pct: 12, cmd_output_pct: 30, multi_project_pct: 55, cmd_pct: 35, ..IoOpts::default() }, max_invocations: 5, edit_pct: 85, touch_only: false, vary_entry: false, clean_pct: 5, fail_pct: 8, corrupt_pct: 8, io_fault_pct: 12, sys_fault: (10, false) })
     }
     fn evaluate(&self, sc: &Scenario, root: &Path, stats: &mut Stats) -> Option<Violation> {
         let v = eval_history(sc, root, stats, Some(Which::Sound), any_target, None, nontrivial_decision);
@@ -752,7 +771,7 @@ impl Property for C03 {
         "one case = 1-3 generated projects (shared resources, identical command text and identical relative paths in different project directories, X.output across projects) and a history of 2-5 invocations over an untouched tree (different requested sets and spellings; the only edits are touch-only, content identical). Oracle: a target that declares inputs, has a definite model record and whose declared resources are content-equal to that record must not have its script started; a target without inputs must never be skipped. distinct_nontrivial = distinct order hashes among invocations in which a target with a model record was evaluated"
     }
     fn generate(&self, rng: &mut Rng, _case: u64) -> Scenario {
-        gen_history(rng, &HistOpts { io: IoOpts { multi_project_pct: 60, max_targets: 6, cmd_pct: 35, cmd_output_pct: 0, own_output_inside_input_pct: 12 }, max_invocations: 4, edit_pct: 40, touch_only: true, vary_entry: false, clean_pct: 0, fail_pct: 18, corrupt_pct: 0, io_fault_pct: 0 })
+        gen_history(rng, &HistOpts { io: IoOpts { multi_project_pct: 60, max_targets: 6, cmd_pct: 35, cmd_output_pct: 0, own_output_inside_input_pct: 12 }, max_invocations: 4, edit_pct: 40, touch_only: true, vary_entry: false, clean_pct: 0, fail_pct: 18, corrupt_pct: 0, io_fault_pct: 0, sys_fault: (12, true) })
     }
     fn evaluate(&self, sc: &Scenario, root: &Path, stats: &mut Stats) -> Option<Violation> {
         eval_history(sc, root, stats, Some(Which::Complete), any_target, None, nontrivial_decision)
@@ -785,7 +804,7 @@ impl Property for C13 {
             // building) must end with the consumer built from the producer's final outputs
             return super::watch::gen_watch(rng, &super::watch::WatchOpts { inside_build_pct: 60, io_only: true, ..Default::default() });
         }
-        gen_history(rng, &HistOpts { io: IoOpts { multi_project_pct: 70, max_targets: 6, cmd_pct: 35, cmd_output_pct: 35, own_output_inside_input_pct: 0 }, max_invocations: 4, edit_pct: 70, touch_only: false, vary_entry: false, clean_pct: 0, fail_pct: 0, corrupt_pct: 0, io_fault_pct: 0 })
+        gen_history(rng, &HistOpts { io: IoOpts { multi_project_pct: 70, max_targets: 6, cmd_pct: 35, cmd_output_pct: 35, own_output_inside_input_pct: 0 }, max_invocations: 4, edit_pct: 70, touch_only: false, vary_entry: false, clean_pct: 0, fail_pct: 0, corrupt_pct: 0, io_fault_pct: 0, sys_fault: (6, true) })
     }
     fn evaluate(&self, sc: &Scenario, root: &Path, stats: &mut Stats) -> Option<Violation> {
         if sc.label.starts_with("watch-") {
@@ -814,7 +833,7 @@ impl Property for C18 {
         "one case = 2-3 projects + a history of 2-5 invocations with different requested targets, different entry projects (-p the root or an imported project's own directory), --clean T for some targets, failing other targets, interleaved with edits. Oracle (both directions): each target's decision equals the model's decision computed from that target's own declared resources and its own last successful completion only. distinct_nontrivial = distinct order hashes among invocations where a target with a model record was evaluated"
     }
     fn generate(&self, rng: &mut Rng, _case: u64) -> Scenario {
-        gen_history(rng, &HistOpts { io: IoOpts { multi_project_pct: 85, max_targets: 6, cmd_pct: 20, cmd_output_pct: 0, own_output_inside_input_pct: 12 }, max_invocations: 5, edit_pct: 50, touch_only: false, vary_entry: true, clean_pct: 20, fail_pct: 20, corrupt_pct: 10, io_fault_pct: 0 })
+        gen_history(rng, &HistOpts { io: IoOpts { multi_project_pct: 85, max_targets: 6, cmd_pct: 20, cmd_output_pct: 0, own_output_inside_input_pct: 12 }, max_invocations: 5, edit_pct: 50, touch_only: false, vary_entry: true, clean_pct: 20, fail_pct: 20, corrupt_pct: 10, io_fault_pct: 0, sys_fault: (10, true) })
     }
     fn evaluate(&self, sc: &Scenario, root: &Path, stats: &mut Stats) -> Option<Violation> {
         eval_history(sc, root, stats, Some(Which::Both), any_target, None, nontrivial_decision)
@@ -1065,7 +1084,7 @@ impl Property for C12 {
         vec!["a declared output path that is itself a symbolic link: cleaning removes the link only (what std's remove_file / remove_dir_all do with a link)"]
     }
     fn generate(&self, rng: &mut Rng, _case: u64) -> Scenario {
-        let mut sc = gen_history(rng, &HistOpts { io: IoOpts { multi_project_pct: 50, max_targets: 5, cmd_pct: 10, cmd_output_pct: 0, own_output_inside_input_pct: 0 }, max_invocations: 4, edit_pct: 30, touch_only: false, vary_entry: false, clean_pct: 70, fail_pct: 0, corrupt_pct: 0, io_fault_pct: 0 });
+        let mut sc = gen_history(rng, &HistOpts { io: IoOpts { multi_project_pct: 50, max_targets: 5, cmd_pct: 10, cmd_output_pct: 0, own_output_inside_input_pct: 0 }, max_invocations: 4, edit_pct: 30, touch_only: false, vary_entry: false, clean_pct: 70, fail_pct: 0, corrupt_pct: 0, io_fault_pct: 0, sys_fault: (0, false) });
         // decorate output locations
         let mut extra = vec![];
         for p in &sc.projects {
